@@ -10,6 +10,7 @@ import (
 	"strings"
 	"sync"
 	"time"
+	"unicode/utf8"
 
 	googleuuid "github.com/google/uuid"
 )
@@ -123,7 +124,8 @@ func ValidateFormat(name string, val string, f Format) error {
 	case FormatRegexp:
 		_, err = regexp.Compile(val)
 	case FormatJSON:
-		if !json.Valid([]byte(val)) {
+		// json.Valid does not look at the encoding of strings, JSON text is UTF-8.
+		if !utf8.ValidString(val) || !json.Valid([]byte(val)) {
 			err = fmt.Errorf("invalid JSON")
 		}
 	case FormatRFC1123:
